@@ -109,7 +109,7 @@ def k_setter(base, chk, meth, n, spec_lf, spec_py, accept_py=lambda b: True, can
     fname = base.prog.find("Scalar)." + meth)
     h = SR(base, chk, fname, "Scalar." + meth)
     bs = [h.dom.input("x[%d]" % i, 0, 255) for i in range(n)]
-    boid = h.ex.new_obj(h.path, ("array", n, base.prog.T("uint8")), name="x", init=list(bs))
+    boid = h.ex.new_obj(h.path, ("array", n + 72, base.prog.T("uint8")), name="x", init=list(bs) + [0xEE] * 72)
     s, sv = h.scalar("s")
     value = K.bval(bs)
     if canonical:
@@ -120,7 +120,7 @@ def k_setter(base, chk, meth, n, spec_lf, spec_py, accept_py=lambda b: True, can
             path.dstate.pop("isred")
             return b
         h.ex.summaries[E + "isReduced"] = isred
-    paths = h.ex.call(fname, [s, X.SliceV(boid, (), 0, n, n)], h.path)
+    paths = h.ex.call(fname, [s, X.SliceV(boid, (), 0, n, n + 72)], h.path)
     sat = False
     acc = [p for p in paths if p.outcome[0] == "ret" and p.outcome[1][1] is None]
     rej = [p for p in paths if p.outcome[0] == "ret" and p.outcome[1][1] is not None]
